@@ -87,17 +87,21 @@ Init == /\ s = <<>> /\ st = "BeginLine" /\ out = <<>> /\ fail = FALSE
 
 Take(x, n) == SubSeq(x, 1, IF n < Len(x) THEN n ELSE Len(x))
 
-\* the reader consumes one more octet
+\* the reader consumes one more octet.  After the failure the server lifts the
+\* budget and drains: the automaton keeps running, its output is discarded.
 Feed(b) ==
-  /\ st # "EOF" /\ ~fail /\ Len(s) < MaxLen
+  /\ st # "EOF" /\ Len(s) < MaxLen
   /\ LET r == Step(st, b)
          o2 == out \o r[2]
      IN /\ s' = Append(s, b)
         /\ bud' = bud
-        /\ IF bud > 0 /\ Len(o2) > bud
+        /\ st' = r[1]
+        /\ IF fail
+           THEN fail' = TRUE /\ out' = out
+           ELSE IF bud > 0 /\ Len(o2) > bud
            THEN \* the budget is exhausted by an octet that has to be emitted
-                /\ fail' = TRUE /\ out' = Take(o2, bud) /\ st' = r[1]
-           ELSE /\ fail' = FALSE /\ out' = o2 /\ st' = r[1]
+                fail' = TRUE /\ out' = Take(o2, bud)
+           ELSE fail' = FALSE /\ out' = o2
 
 Next == \E b \in Classes : Feed(b)
 Spec == Init /\ [][Next]_vars
@@ -109,9 +113,11 @@ TypeOK == st \in States /\ fail \in BOOLEAN /\ Len(s) <= MaxLen
 
 \* C01/C02: the two layers agree; end of data is reported exactly at the first
 \* CRLF.CRLF (or a leading .CRLF) and nowhere else.
+\* This holds whether or not the budget ran out on the way: an over-long
+\* message is drained up to the very same end marker.
 EndExactlyAtMarker ==
-  ~fail => /\ (st = "EOF") = HasEnd(s)
-           /\ (st = "EOF") => EndIdx(s) + 2 = Len(s)
+  /\ (st = "EOF") = HasEnd(s)
+  /\ (st = "EOF") => EndIdx(s) + 2 = Len(s)
 
 LayersAgree ==
   ~fail => out \o Pending(st) = Expected(s)
